@@ -63,6 +63,10 @@ class Pipe:
 
     def _accept(self, data):
         self.total += len(data)
+        t = self.s.current
+        if t is not None and t.proc is not None:
+            # who wrote how much (all pipes and sockets of the process together)
+            t.proc.bytes_written = getattr(t.proc, "bytes_written", 0) + len(data)
         if len(self.wire) < (64 << 20):
             self.wire += data
         if not self.discard:
